@@ -63,6 +63,10 @@ Step1(st, op) ==
     [] op[1] = "stdout"     -> [st EXCEPT !.sout = IF @ = "unset" THEN op[2] ELSE @]
     [] op[1] = "stderr"     -> [st EXCEPT !.serr = IF @ = "unset" THEN op[2] ELSE @]
     [] op[1] = "detached"   -> [st EXCEPT !.det = TRUE]
+    \* (not a builder call: the process environment changes while the command is put together.  Before the first
+    \* environment edit the command still inherits: the change is part of what it inherits.  Afterwards the scenarios only
+    \* touch names the builder has edited, so that the moment the copy is taken does not matter.)
+    [] op[1] = "setenv_proc" -> IF st.touched THEN st ELSE [st EXCEPT !.env = MSet(@, op[2], op[3])]
     [] OTHER                -> st     \* "clone": an independent equivalent command
 
 \* verdict of a terminator
